@@ -41,7 +41,7 @@ def findings_tables():
         cb = m.get("caught_by")
         caught = (", ".join(cb) if isinstance(cb, list) else str(cb)) + (" — " + str(m.get("caught_note") or m.get("how")) if (m.get("caught_note") or m.get("how")) else "")
         if m.get("stale"):
-            caught += " [STALE: " + str(m["stale"]) + "]"
+            caught = "[STALE: " + str(m["stale"]) + "] " + caught
         rows.append(f"| {sid} | {clip(m.get('summary', ''), 300)} | {clip(m.get('needs_to_manifest', ''), 260)} | {clip(caught, 520)} |")
     t12 = "| id | change | needs | caught by |\n|----|--------|-------|-----------|\n" + "\n".join(rows)
     return t81, t82, t12, len(fixed), len(opened), len(rows)
